@@ -87,7 +87,7 @@ class CheckContext:
         return sum(1 for o in self.obligations if o.rule == rule)
 
 
-GENERIC_RULES = {"TRUTHY", "MEMO-KEY", "MEMO-DEP", "MEMO-COH", "RECOMPUTE", "ARG-TYPE", "LOST-UPDATE", "LIST-MULT", "DEFAULT-ALIAS", "ENUM-FORM"}
+GENERIC_RULES = {"TRUTHY", "MEMO-KEY", "MEMO-DEP", "MEMO-COH", "RECOMPUTE", "ARG-TYPE", "LOST-UPDATE", "LIST-MULT", "DEFAULT-ALIAS", "ENUM-FORM", "OR-DEFAULT"}
 
 
 def tree_is_reference(root: str) -> bool:
